@@ -410,7 +410,7 @@ func snapshotDir(dir string) []string {
 var oldTime = time.Date(2001, 2, 3, 4, 5, 6, 0, time.UTC)
 
 // setupTarget creates the filesystem situation of a Save op and returns the target path.
-func setupTarget(sub string, plan *FSPlan, op int) (target string, structural bool) {
+func setupTarget(sub string, plan *FSPlan, op int, prevTarget string) (target string, structural bool) {
 	os.MkdirAll(sub, 0755)
 	target = filepath.Join(sub, "out.go")
 	switch plan.Target {
@@ -422,14 +422,34 @@ func setupTarget(sub string, plan *FSPlan, op int) (target string, structural bo
 		os.MkdirAll(target, 0755)
 		os.WriteFile(filepath.Join(target, "keep.txt"), []byte("KEEP"), 0644)
 		os.Chtimes(filepath.Join(target, "keep.txt"), oldTime, oldTime)
-		structural = true
 	case "noparent":
 		target = filepath.Join(sub, "missing", "out.go")
-		structural = true
 	case "parentfile":
 		os.WriteFile(filepath.Join(sub, "afile"), []byte("KEEP"), 0644)
 		os.Chtimes(filepath.Join(sub, "afile"), oldTime, oldTime)
 		target = filepath.Join(sub, "afile", "out.go")
+	case "again", "again-mkparent", "again-deleted", "again-scribbled":
+		// the same path as the previous Save of this history, after the world moved on
+		if prevTarget != "" {
+			target = prevTarget
+			switch plan.Target {
+			case "again-mkparent":
+				os.MkdirAll(filepath.Dir(target), 0755)
+			case "again-deleted":
+				os.Remove(target)
+			case "again-scribbled":
+				if st, err := os.Lstat(target); err == nil && st.Mode().IsRegular() {
+					os.WriteFile(target, []byte("package keep // edited by hand\n"), 0644)
+					os.Chtimes(target, oldTime, oldTime)
+				}
+			}
+		}
+	}
+	// a Save can only succeed if the parent is a directory and the target is not one
+	if st, err := os.Stat(filepath.Dir(target)); err != nil || !st.IsDir() {
+		structural = true
+	}
+	if st, err := os.Lstat(target); err == nil && st.IsDir() {
 		structural = true
 	}
 	return
@@ -484,6 +504,7 @@ func execBody(r *Recipe, env *Env, shared []*jen.Statement) (hist []Outcome) {
 	}
 	ctx.frags = b.frags
 	f := b.file
+	lastSaveSub, lastSaveTarget := "", ""
 	for i, op := range r.Ops {
 		if env.UpTo >= 0 && i > env.UpTo {
 			break
@@ -640,8 +661,13 @@ func execBody(r *Recipe, env *Env, shared []*jen.Statement) (hist []Outcome) {
 				o.Obj = "file"
 				o.NoFormat = f.NoFormat
 				sub := filepath.Join(env.Sandbox, fmt.Sprintf("op%d", i))
-				os.RemoveAll(sub)
-				target, structural := setupTarget(sub, op.F, i)
+				if strings.HasPrefix(op.F.Target, "again") && lastSaveSub != "" {
+					sub = lastSaveSub
+				} else {
+					os.RemoveAll(sub)
+				}
+				target, structural := setupTarget(sub, op.F, i, lastSaveTarget)
+				lastSaveSub, lastSaveTarget = sub, target
 				o.FSFault = structural
 				o.Target, _ = filepath.Rel(sub, target)
 				o.FSBefore = snapshotDir(sub)
